@@ -78,14 +78,17 @@ func (c *crashStore) Set(k kvstore.Key, v kvstore.Value) error {
 }
 
 type world struct {
-	base     kvstore.KVStore
+	root     kvstore.KVStore // the database
+	parent   kvstore.KVStore // a non-root view of it; the sequence lives in a sub-view, siblings are opened next to it
+	view     kvstore.KVStore // the handle the Sequence uses (under the crash wrapper)
 	cs       *crashStore
 	seq      *kvstore.Sequence
 	interval uint64
 	// oracle state
-	last     int64  // last number handed out, -1 if none
+	have     bool   // a number was handed out
+	last     uint64 // last number handed out (if have)
 	count    uint64 // numbers handed out so far
-	budget   uint64 // sum of the intervals of all abandoned objects
+	budget   uint64 // sum of the intervals of all abandoned objects, saturating at MaxUint64
 	clean    bool   // since the last hand-out only Release and restarts of released objects happened
 	released bool   // the live object released its lease after its last hand-out
 	trail    []string
@@ -93,18 +96,62 @@ type world struct {
 
 var key = []byte("seq")
 
-func newWorld() *world {
-	base := mapdb.NewMapDB()
+var (
+	parentRealm = []byte("store")
+	seqRealm    = []byte("s")
+	otherKey    = []byte("other")
+)
 
-	return &world{base: base, cs: &crashStore{KVStore: base, armed: -1}, last: -1, clean: true}
+// The sequence lives in a sub-view of a non-root view of the database (realm "store" ++ "s"); sibling sub-views
+// ("store" ++ x) are opened and written while it is in use, and another key of the same view is read by foreign
+// goroutines: none of that may disturb the numbers.
+func newWorld() *world {
+	root := mapdb.NewMapDB()
+	parent, err := root.WithExtendedRealm(parentRealm)
+	if err != nil {
+		panic(err)
+	}
+	view, err := parent.WithExtendedRealm(seqRealm)
+	if err != nil {
+		panic(err)
+	}
+	if err := view.Set(otherKey, make([]byte, 8)); err != nil {
+		panic(err)
+	}
+
+	return &world{root: root, parent: parent, view: view, cs: &crashStore{KVStore: view, armed: -1}, clean: true}
+}
+
+// storedMark reads the mark through an independent view built from literal realm bytes.
+func (w *world) storedMark() (uint64, bool, error) {
+	v, err := w.root.Get(append(append(append([]byte{}, parentRealm...), seqRealm...), key...))
+	if ierrors.Is(err, kvstore.ErrKeyNotFound) {
+		return 0, false, nil
+	}
+	if err != nil {
+		return 0, false, err
+	}
+
+	return binary.BigEndian.Uint64(v), true, nil
+}
+
+func satAdd(a, b uint64) uint64 {
+	if a+b < a {
+		return ^uint64(0)
+	}
+
+	return a + b
 }
 
 func (w *world) handOut(r *hx.Run, n uint64) {
-	if int64(n) <= w.last {
+	if w.have && n <= w.last {
 		r.Fail("strictly-increasing", fmt.Sprintf("number %d handed out after %d; trail=%v", n, w.last, w.trail),
 			map[string]string{"oracle": "reuse", "after": trailKinds(w.trail)})
 	} else {
-		gap := n - uint64(w.last+1)
+		gap := n
+		if w.have {
+			gap = n - (w.last + 1)
+		}
 		if w.clean && gap != 0 {
 			r.Fail("release-wastes-none", fmt.Sprintf("gap %d before %d although only clean releases/restarts happened; trail=%v", gap, n, w.trail),
 				map[string]string{"oracle": "waste-clean", "after": trailKinds(w.trail)})
@@ -115,7 +162,10 @@ func (w *world) handOut(r *hx.Run, n uint64) {
 				map[string]string{"oracle": "waste", "after": trailKinds(w.trail)})
 		}
 	}
-	w.last = int64(n)
+	if n == ^uint64(0) {
+		r.Fail("strictly-increasing", "MaxUint64 handed out: the next increment wraps around", map[string]string{"oracle": "wrap", "after": trailKinds(w.trail)})
+	}
+	w.last, w.have = n, true
 	w.count++
 	w.clean = true
 	w.released = false
@@ -126,7 +176,7 @@ func trailKinds(t []string) string { return strings.Join(t, ",") }
 
 func (w *world) abandon(cleanly bool) {
 	if w.seq != nil {
-		w.budget += w.interval
+		w.budget = satAdd(w.budget, w.interval)
 		w.seq = nil
 		if !(cleanly && w.released) {
 			w.clean = false
@@ -157,11 +207,28 @@ func (w *world) exec(r *hx.Run, op string) string {
 		}
 		n, err := w.seq.Next()
 		if err != nil {
+			w.checkExhausted(r, err, "next")
+
 			return "err"
 		}
 		w.handOut(r, n)
 
 		return fmt.Sprintf("num %d", n)
+	case "sibling":
+		// open a sibling sub-view next to the sequence's view and write into it
+		sv, err := w.parent.WithExtendedRealm([]byte(f[1]))
+		if err != nil {
+			return "err"
+		}
+		if err := sv.Set(key, []byte{0, 0, 0, 0, 0, 0, 0, 1}); err != nil {
+			return "err"
+		}
+		if v, err := w.view.Get(otherKey); err != nil || len(v) != 8 {
+			r.Fail("store-intact", fmt.Sprintf("the other key of the sequence's view reads %x, %v after a sibling view was opened", v, err),
+				map[string]string{"oracle": "view-disturbed", "after": "sibling"})
+		}
+
+		return "ok"
 	case "release":
 		if w.seq == nil {
 			return "noobj"
@@ -202,6 +269,8 @@ func (w *world) exec(r *hx.Run, op string) string {
 				return "crashed"
 			}
 			if err != nil {
+				w.checkExhausted(r, err, "crash-"+f[1])
+
 				return "err"
 			}
 			// Next was served from memory
@@ -266,7 +335,7 @@ func (w *world) exec(r *hx.Run, op string) string {
 		w.cs.failAt = 0
 		if err != nil {
 			if !fired {
-				r.Fail("error-faithful", "Next returned an error although no store call failed", map[string]string{"oracle": "spurious-error", "after": "fnext"})
+				w.checkExhausted(r, err, "fnext")
 			}
 
 			return "err"
@@ -323,17 +392,17 @@ func (w *world) exec(r *hx.Run, op string) string {
 			nwg.Add(1)
 			go func() {
 				defer nwg.Done()
-				last := int64(-1)
+				last, have := uint64(0), false
 				for j := 0; j < k; j++ {
 					n, err := seq.Next()
 					if err != nil {
 						continue
 					}
-					if int64(n) <= last {
+					if have && n <= last {
 						r.Fail("strictly-increasing", fmt.Sprintf("one caller got %d after %d (Next racing Release)", n, last),
 							map[string]string{"oracle": "reuse", "after": "parrel"})
 					}
-					last = int64(n)
+					last, have = n, true
 					record(n, "same object")
 				}
 			}()
@@ -343,7 +412,7 @@ func (w *world) exec(r *hx.Run, op string) string {
 		wg.Wait()
 		w.cs.slowSet.Store(false)
 		for n := range seen {
-			if int64(n) <= w.last {
+			if w.have && n <= w.last {
 				r.Fail("strictly-increasing", fmt.Sprintf("number %d handed out although %d had been handed out before", n, w.last),
 					map[string]string{"oracle": "reuse", "after": "parrel"})
 			}
@@ -362,16 +431,16 @@ func (w *world) exec(r *hx.Run, op string) string {
 
 		return "ok"
 	case "mark":
-		v, err := w.base.Get(key)
-		if ierrors.Is(err, kvstore.ErrKeyNotFound) {
-			return "none"
-		}
+		m, ok, err := w.storedMark()
 		if err != nil {
 			return "err"
 		}
+		if !ok {
+			return "none"
+		}
 
-		return strconv.FormatUint(binary.BigEndian.Uint64(v), 10)
-	case "par":
+		return strconv.FormatUint(m, 10)
+	case "par", "parfr":
 		// G goroutines x K Next calls on the live object; answer: the sorted results as a range if contiguous
 		if w.seq == nil {
 			return "noobj"
@@ -381,6 +450,37 @@ func (w *world) exec(r *hx.Run, op string) string {
 		var mu sync.Mutex
 		var all []uint64
 		var wg sync.WaitGroup
+		stopFr := make(chan struct{})
+		var frwg sync.WaitGroup
+		if f[0] == "parfr" {
+			// foreign goroutines read ANOTHER key through the very handle the Sequence uses
+			for i := 0; i < 2; i++ {
+				frwg.Add(1)
+				go func(i int) {
+					defer frwg.Done()
+					for {
+						select {
+						case <-stopFr:
+							return
+						default:
+						}
+						if i == 0 {
+							if v, err := w.view.Get(otherKey); err != nil || len(v) != 8 || binary.BigEndian.Uint64(v) != 0 {
+								r.Fail("store-intact", fmt.Sprintf("foreign reader got %x, %v for the other key", v, err),
+									map[string]string{"oracle": "view-disturbed", "after": "parfr"})
+
+								return
+							}
+						} else if ok, err := w.view.Has(otherKey); err != nil || !ok {
+							r.Fail("store-intact", fmt.Sprintf("foreign reader: Has(other key) = %v, %v", ok, err),
+								map[string]string{"oracle": "view-disturbed", "after": "parfr"})
+
+							return
+						}
+					}
+				}(i)
+			}
+		}
 		for i := 0; i < g; i++ {
 			wg.Add(1)
 			go func() {
@@ -396,11 +496,13 @@ func (w *world) exec(r *hx.Run, op string) string {
 			}()
 		}
 		wg.Wait()
+		close(stopFr)
+		frwg.Wait()
 		sort.Slice(all, func(i, j int) bool { return all[i] < all[j] })
 		for i := 1; i < len(all); i++ {
 			if all[i] == all[i-1] {
 				r.Fail("strictly-increasing", fmt.Sprintf("concurrent Next returned %d twice", all[i]),
-					map[string]string{"oracle": "reuse", "after": "par"})
+					map[string]string{"oracle": "reuse", "after": f[0]})
 			}
 		}
 		for _, n := range all {
@@ -514,7 +616,7 @@ func (w *world) execHist(r *hx.Run, op string) (string, string) {
 		} else if i > 0 && all[i] != all[i-1]+1 {
 			r.Fail("release-wastes-none", fmt.Sprintf("gap between %d and %d although no crash happened (Next racing Release)", all[i-1], all[i]), sig("waste-clean"))
 		}
-		if int64(all[i]) <= w.last {
+		if w.have && all[i] <= w.last {
 			r.Fail("strictly-increasing", fmt.Sprintf("number %d handed out although %d had been handed out before", all[i], w.last), sig("reuse"))
 		}
 	}
@@ -564,6 +666,17 @@ func (w *world) execHist(r *hx.Run, op string) (string, string) {
 	return line, "accept"
 }
 
+// checkExhausted: a Next that fails although no store call failed may only report ErrSequenceExhausted, and only when
+// the stored mark stands at the end of the number space.
+func (w *world) checkExhausted(r *hx.Run, err error, after string) {
+	m, ok, merr := w.storedMark()
+	// matched by its text so that the harness also builds against a tree without the exported error value
+	if !strings.Contains(err.Error(), "sequence exhausted") || merr != nil || !ok || m != ^uint64(0) {
+		r.Fail("error-faithful", fmt.Sprintf("Next returned %v although no store call failed; stored mark %d (present %v)", err, m, ok),
+			map[string]string{"oracle": "spurious-error", "after": after})
+	}
+}
+
 func runCrashing(f func()) (crashed bool) {
 	defer func() {
 		if e := recover(); e != nil {
@@ -578,6 +691,43 @@ func runCrashing(f func()) (crashed bool) {
 	f()
 
 	return false
+}
+
+// genExtreme: histories at the end of the number space: huge intervals (a lease is cut off at MaxUint64, then Next
+// reports exhaustion), no concurrent requests.
+func genExtreme(rng *hx.Rng, n int) []string {
+	intervals := []uint64{1, 5, 1 << 32, 1 << 62, 1 << 63, 1<<63 + 1, ^uint64(0) - 1, ^uint64(0), ^uint64(0)}
+	ops := []string{fmt.Sprintf("new %d", hx.Pick(rng, intervals))}
+	for i := 0; i < n; i++ {
+		switch x := rng.Intn(100); {
+		case x < 40:
+			ops = append(ops, "next")
+		case x < 55:
+			ops = append(ops, "release")
+		case x < 65:
+			ops = append(ops, fmt.Sprintf("new %d", hx.Pick(rng, intervals)))
+		case x < 70:
+			ops = append(ops, "crash idle", fmt.Sprintf("new %d", hx.Pick(rng, intervals)))
+		case x < 76:
+			ops = append(ops, "crash read", fmt.Sprintf("new %d", hx.Pick(rng, intervals)))
+		case x < 84:
+			ops = append(ops, "crash write", fmt.Sprintf("new %d", hx.Pick(rng, intervals)))
+		case x < 88:
+			ops = append(ops, "crash relwrite", fmt.Sprintf("new %d", hx.Pick(rng, intervals)))
+		case x < 93:
+			ops = append(ops, "mark")
+		case x < 95:
+			ops = append(ops, "fnext get")
+		case x < 97:
+			ops = append(ops, "fnext set")
+		case x < 98:
+			ops = append(ops, "frelease")
+		default:
+			ops = append(ops, "sibling t")
+		}
+	}
+
+	return ops
 }
 
 func genCase(rng *hx.Rng, n int) []string {
@@ -599,8 +749,10 @@ func genCase(rng *hx.Rng, n int) []string {
 			ops = append(ops, "crash write", fmt.Sprintf("new %d", hx.Pick(rng, intervals)))
 		case x < 91:
 			ops = append(ops, "crash relwrite", fmt.Sprintf("new %d", hx.Pick(rng, intervals)))
-		case x < 94:
+		case x < 93:
 			ops = append(ops, "mark")
+		case x < 94:
+			ops = append(ops, "sibling "+hx.Pick(rng, []string{"t", "s2", "r", "u"}))
 		case x < 95:
 			ops = append(ops, "fnext get")
 		case x < 97:
@@ -610,6 +762,9 @@ func genCase(rng *hx.Rng, n int) []string {
 		default:
 			ops = append(ops, fmt.Sprintf("par %d %d", rng.Range(2, 4), rng.Range(1, 5)))
 		}
+	}
+	if rng.Chance(1, 40) { // concurrent Next with foreign readers of another key on the same handle
+		ops = append(ops, "new 1", fmt.Sprintf("parfr 4 %d", rng.Range(300, 1200)))
 	}
 	if rng.Chance(1, 12) { // concurrent Next vs Release: always the last request of a case
 		ops = append(ops, fmt.Sprintf("parrel %d %d", rng.Range(2, 4), rng.Range(20, 60)))
@@ -654,7 +809,7 @@ func runCase(r *hx.Run, sub uint64, ops []string) {
 
 func main() {
 	r := hx.Start()
-	r.Rule = "random histories of new/next/release/crash(idle|read|write|relwrite)/fnext(get|set)/frelease (injected store errors)/mark/par/parrel (Next racing Release, slow store writes)/chist (recorded concurrent history of Next racing Release + restart, judged by the Lean trace predicate of C07_concurrent_*) over intervals {1,2,3,5,2^32}; " +
+	r.Rule = "random histories of new/next/release/crash(idle|read|write|relwrite)/fnext(get|set)/frelease (injected store errors)/mark/par/parrel (Next racing Release, slow store writes)/chist (recorded concurrent history of Next racing Release + restart, judged by the Lean trace predicate of C07_concurrent_*) over intervals {1,2,3,5,2^32}; every fifth case at the end of the number space (intervals up to 2^64-1: leases cut off at MaxUint64, exhaustion errors); the sequence lives in a sub-view of a non-root mapdb view, 'sibling' opens and writes sibling views, 'parfr' runs concurrent Next with foreign readers of another key on the same handle; " +
 		"non-trivial = at least two restarts/crashes and two numbers handed out; distinct by sha256 of the op lines"
 	if lines := r.ReplayLines(); lines != nil {
 		runCase(r, 0, lines)
@@ -673,6 +828,14 @@ func main() {
 		{"new 5", "next", "next", "chist 3 30 2 3"},
 		{"new 1", "chist 4 20 3 2"},
 		{"new 3", "next", "release", "crash write", "new 4294967296", "next", "chist 2 40 1 4"},
+		// wrap-around of next+interval (repaired in /repo: "fix: Sequence.update must not let next+interval wrap ...")
+		{"new 18446744073709551615", "next", "release", "new 18446744073709551615", "next", "next", "mark"},
+		{"new 9223372036854775808", "next", "crash idle", "new 9223372036854775808", "next", "crash idle", "new 9223372036854775808", "next", "next", "mark"},
+		{"new 18446744073709551615", "next", "crash idle", "new 5", "next", "next", "crash write", "release", "fnext set", "mark"},
+		{"new 9223372036854775807", "next", "crash idle", "new 1", "next", "next", "next", "crash write", "new 9223372036854775807", "next", "next"},
+		// the sequence's view has siblings opened while it is in use; foreign readers share its handle
+		{"new 2", "next", "sibling t", "next", "next", "sibling s2", "crash idle", "new 3", "next", "mark"},
+		{"new 1", "next", "parfr 4 1500", "next", "mark"},
 	}
 	for _, c := range corpus {
 		runCase(r, 0, c)
@@ -680,7 +843,11 @@ func main() {
 	n := 5000 * r.Scale
 	for i := 0; i < n; i++ {
 		rng, sub := r.Rng.Fork()
-		runCase(r, sub, genCase(rng, 30))
+		if i%5 == 4 {
+			runCase(r, sub, genExtreme(rng, 25))
+		} else {
+			runCase(r, sub, genCase(rng, 30))
+		}
 	}
 	r.Finish()
 }
